@@ -789,6 +789,14 @@ theorem finalise_loop_source_eq_model {α : Type} (shrink : Nat → K) (n : Nat)
   unfold Gen.Trapezoid.finalise_loop
   exact finalise_loop_from shrink n live 0 s nested
 
+/-- composed with the theorems above: the source's hand-over loop, run on the state that consumed the dead points, yields exactly the
+`sampler` state whose `finalise` / `postW` are what the source's one-pass `compute_weights` returns (`state_eq_compute_weights`) -/
+theorem finalise_loop_source_is_sampler {α : Type} (shrink : Nat → K) (n : Nat) (dead : List K) (nested : List α) (live : List (α × K)) :
+    (Gen.Trapezoid.finalise_loop shrink n (consume shrink (St.init n) dead) nested live).1 = sampler shrink n dead (live.map (·.2)) ∧
+    (Gen.Trapezoid.finalise_loop shrink n (consume shrink (St.init n) dead) nested live).2 = nested ++ live.map (·.1) := by
+  rw [finalise_loop_source_eq_model]
+  exact ⟨rfl, rfl⟩
+
 example : Gen.Trapezoid.get_logx_live_points (fun x => x) (1 : ℚ) "T" 3 = none := by
   simp [Gen.Trapezoid.get_logx_live_points]
 
